@@ -72,7 +72,7 @@ def eval_points(seed):
     return np.array(pts)
 
 
-def atomic_grid(degree, rmin=0.0, laguerre=False):
+def atomic_grid(degree, rmin=0.0, laguerre=False, rotate=0):
     from grid.atomgrid import AtomGrid
     from grid.onedgrid import GaussLaguerre, GaussLegendre
     from grid.rtransform import BeckeRTransform, IdentityRTransform, InverseRTransform
@@ -86,7 +86,7 @@ def atomic_grid(degree, rmin=0.0, laguerre=False):
             btf = BeckeRTransform(rmin, 1.5)
             rg = btf.transform_1d_grid(GaussLegendre(80))
             tf = InverseRTransform(btf)
-        return AtomGrid(rg, degrees=[degree], center=CENTRE), tf
+        return AtomGrid(rg, degrees=[degree], center=CENTRE, rotate=rotate), tf
 
 
 def _bvp_case(arg):
@@ -95,8 +95,11 @@ def _bvp_case(arg):
 
     res = WorkerResult(section="bvp")
     case = {"route": "bvp", "degree": degree, "displacement": disp, "alpha": alpha, "options": opts}
-    boundary_kind, include_origin, remove, tfkind = opts
-    g, tf = atomic_grid(degree, rmin=1e-5 if tfkind == "becke-1e-5" else 0.0, laguerre=tfkind == "laguerre")
+    boundary_kind, include_origin, remove, tfkind = opts[:4]
+    # a fifth entry is a rotation seed of the atomic grid (added after seeded change C16-F: the harmonic projection
+    # ignoring the per-shell rotation, visible only for densities with l > 0 content on a rotated grid)
+    rot = int(opts[4]) if len(opts) > 4 else 0
+    g, tf = atomic_grid(degree, rmin=1e-5 if tfkind == "becke-1e-5" else 0.0, laguerre=tfkind == "laguerre", rotate=rot)
     c = CENTRE + DISPLACEMENTS[disp]
     a = alpha * (1 + lattice.jitter(seed, f"a{alpha}", 0.0, 0.05))
     rho = rho_gauss(g.points, c, a)
@@ -328,7 +331,10 @@ def _robust2_case(arg):
     C16-B was missed): the density is the fitted core models plus a few normalised Gaussians whose
     exponents are in ``alphas_basis``; the non-negative fit removes them, the numerical residual is
     ~0 and the result must be the analytic potential of all Gaussians."""
-    split2, dist, seed = arg
+    split2, dist, seed = arg[:3]
+    # molecules with REPEATED elements (added after seeded change C16-E was missed: per-element bookkeeping that is a
+    # bijection only while the number of equal atoms and the number of fitted Gaussians are coprime)
+    mol = arg[3] if len(arg) > 3 else "CH"
     from grid.atomgrid import AtomGrid
     from grid.becke import BeckeWeights
     from grid.coulomb import load_atomic_gaussian_params
@@ -338,9 +344,10 @@ def _robust2_case(arg):
     from grid.robust_poisson import solve_poisson_robust
 
     res = WorkerResult(section="robust:two-centres")
-    case = {"route": "robust2", "split2": split2, "distance": dist}
-    atnums = np.array([6, 1])
-    coords = np.array([[0.0, 0.0, -dist / 2], [0.0, 0.1, dist / 2]])
+    case = {"route": "robust2", "split2": split2, "distance": dist, "molecule": mol}
+    atnums = np.array({"CH": [6, 1], "OO": [8, 8], "ClCl": [17, 17], "OCO": [8, 6, 8], "CCC": [6, 6, 6], "HOHO": [1, 8, 1, 8]}[mol])
+    n_at = len(atnums)
+    coords = np.array([[0.03 * k * k, 0.1 * (k % 2), -dist / 2 + dist * k / (n_at - 1)] for k in range(n_at)])
     basis = np.array([0.5, 1.5, 4.0])
     with warnings.catch_warnings():
         warnings.simplefilter("ignore")
@@ -351,7 +358,7 @@ def _robust2_case(arg):
         for z, cen in zip(atnums, coords):
             cs, al = load_atomic_gaussian_params(int(z))
             terms += [(c, a, cen) for c, a in zip(cs, al)]
-        extra = [(0.8, 0.5, coords[0]), (0.4, 4.0, coords[0]), (0.6, 1.5, coords[1])] if split2 else []
+        extra = [(0.8, 0.5, coords[0]), (0.4, 4.0, coords[0]), (0.6, 1.5, coords[1]), (0.3, 1.5, coords[-1])] if split2 else []
         terms += extra
         rng = np.random.default_rng([seed, 162])
         q = np.vstack([cen + rng.normal(size=(12, 3)) * 1.2 for cen in coords])
@@ -396,7 +403,7 @@ def _mol_case(arg):
         btf = BeckeRTransform(0.0, 1.5)
         rg = btf.transform_1d_grid(GaussLegendre(70))
         coords = np.array([[0.0, 0.0, -dist / 2], [0.0, 0.0, dist / 2]])
-        ats = [AtomGrid(rg, degrees=[25 if dist < 3 else 11], center=c) for c in coords]
+        ats = [AtomGrid(rg, degrees=[25 if dist < 3 else 11], center=c, rotate=37 if dist == 4.0 else 0) for c in coords]
         mg = MolGrid(np.array([1, 1]), ats, BeckeWeights(order=3), store=True)
         rho = 1.0 * rho_gauss(mg.points, coords[0], 1.0) + 0.5 * rho_gauss(mg.points, coords[1], 2.0)
         q = np.array([[0.0, 0.0, 0.0], [0.3, 0.1, dist / 2 + 0.4], [1.0, -0.7, -dist / 2], [2.0, 2.0, 1.0], [0.0, 0.0, dist / 2 + 0.05]])
@@ -436,6 +443,9 @@ def run(ctx):
                     if o[3] == "laguerre" and disp != "centred":
                         continue
                     jobs.append(("bvp", (degree, disp, alpha, tuple(o), ctx.seed)))
+    for disp in DISPLACEMENTS:
+        for rot in (11, 37) if ctx.thorough else (11,):
+            jobs.append(("bvp", (7, disp, 1.0, tuple(opts[0]) + (rot,), ctx.seed)))
     jobs.append(("lin", (7, ctx.seed)))
     if ctx.thorough:
         jobs.append(("lin", (15, ctx.seed)))
@@ -444,6 +454,8 @@ def run(ctx):
     jobs.append(("ivp", (1.0, ctx.seed, 200.0)))   # integration starts inside the radial grid
     jobs.append(("rob2", (True, 8.0, ctx.seed)))
     jobs.append(("rob2", (False, 8.0, ctx.seed)))
+    for mol in ("OO", "OCO", "CCC") + (("ClCl", "HOHO") if ctx.thorough else ()):
+        jobs.append(("rob2", (mol == "OO", 8.0, ctx.seed, mol)))
     for disp in DISPLACEMENTS:
         for alpha in ALPHAS[: 3 if ctx.thorough else 1]:
             jobs.append(("lap", (disp, alpha, ctx.seed)))
@@ -482,7 +494,7 @@ def replay(ctx, case):
     elif r == "ivp":
         ctx.merge(_ivp_case((case["alpha"], ctx.seed, case.get("r_start", 1000.0))))
     elif r == "robust2":
-        ctx.merge(_robust2_case((case["split2"], case["distance"], ctx.seed)))
+        ctx.merge(_robust2_case((case["split2"], case["distance"], ctx.seed, case.get("molecule", "CH"))))
     elif r == "laplacian":
         ctx.merge(_laplacian_case((case["displacement"], case["alpha"], ctx.seed)))
     elif r == "robust":
